@@ -303,8 +303,12 @@ func runRecvDuring(out caser, kind, cap, mode int, wait bool, narrive int, order
 	out.Case(2, sx.L{sx.I(int64(kind)), sx.I(int64(cap)), sx.I(int64(mode)), sx.I(int64(w)), sx.I(int64(narrive)), res}, sx.L{sx.I(1)}, tag)
 }
 
+var errCallback = errors.New("callback failed")
+
 // ---------------------------------------------------------------- fn 3
-// cbkind: 0 nil callback, 1 callback that always continues, 2 callback that stops at the 2nd package
+// cbkind: 0 nil callback, 1 callback that always continues, 2 callback that stops at the 2nd package,
+//         3 / 4 callback that fails (an error that is not io.EOF) at the 1st / 2nd package: the library then consumes the
+//         rest of the response before it returns the callback's error - result (7)
 func runUntilCancelled(out caser, kind, cap, mode, nfed int, final bool, cbkind int) {
 	e := newC13(cap, 0)
 	defer e.shutdown()
@@ -334,6 +338,9 @@ func runUntilCancelled(out caser, kind, cap, mode, nfed int, final bool, cbkind 
 			} else {
 				seen = append(seen, sx.I(-1))
 			}
+			if cbkind >= 3 && len(seen) == cbkind-2 {
+				return false, errCallback
+			}
 			return cbkind == 2 && len(seen) == 2, nil
 		}
 	}
@@ -343,7 +350,11 @@ func runUntilCancelled(out caser, kind, cap, mode, nfed int, final bool, cbkind 
 	if !ret {
 		seen = sx.L{} // the callback may still be running
 	}
-	out.Case(3, in, sx.L{seen, resTree(p, err, ret)}, tag)
+	res := resTree(p, err, ret)
+	if ret && err != nil && errors.Is(err, errCallback) {
+		res = sx.L{sx.I(7)}
+	}
+	out.Case(3, in, sx.L{seen, res}, tag)
 }
 
 // ---------------------------------------------------------------- fn 4
@@ -583,7 +594,7 @@ func runCloseFill(out caser, kind, cap, nfed, nconsumed, peer int, bound time.Du
 //            2 fails exactly nfail times, then healthy
 // zeroClosed: channel 0 is closed (logout) before anything else happens, so that closing the remaining channels does
 // not read the connection's error queue.
-func runConnClose(out caser, nchan, cap int, nqueued []int, peer, transport, nfail int, zeroClosed bool) {
+func runConnClose(out caser, nchan, cap int, nqueued []int, peer, transport, nfail int, zeroClosed bool, precancel int) {
 	base := stableGoroutines()
 	e := newC13(cap, peer)
 	var chans []*tds.Channel
@@ -598,12 +609,16 @@ func runConnClose(out caser, nchan, cap int, nqueued []int, peer, transport, nfa
 	if ql == nil {
 		ql = sx.L{}
 	}
-	in := sx.L{sx.I(int64(nchan)), sx.I(int64(cap)), ql, sx.I(int64(peer)), sx.I(int64(transport)), sx.I(int64(nfail)), sx.I(zc)}
+	pcv := int64(0)
+	if precancel > 0 {
+		pcv = 1
+	}
+	in := sx.L{sx.I(int64(nchan)), sx.I(int64(cap)), ql, sx.I(int64(peer)), sx.I(int64(transport)), sx.I(int64(nfail)), sx.I(zc), sx.I(pcv)}
 	class := "conn-close"
 	if transport == 1 || (transport == 2 && nfail >= 10) {
 		class = "reader-parked-errch"
 	}
-	tag := fmt.Sprintf("%s;channels=%d;peer=%d;transport=%d;nfail=%d;zeroclosed=%d", class, nchan, peer, transport, nfail, zc)
+	tag := fmt.Sprintf("%s;channels=%d;peer=%d;transport=%d;nfail=%d;zeroclosed=%d;precancel=%d", class, nchan, peer, transport, nfail, zc, precancel)
 	for i := 0; i < nchan; i++ {
 		ch, err, ok := e.newChannel()
 		if !ok || err != nil {
@@ -649,6 +664,12 @@ func runConnClose(out caser, nchan, cap int, nqueued []int, peer, transport, nfa
 			last = n
 			time.Sleep(time.Millisecond)
 		}
+	}
+	switch precancel {
+	case 1: // the connection's own context
+		e.conn.VerifCancel()
+	case 2: // the context the connection was made from
+		e.cancel()
 	}
 	ret, _ := within(hangBound, func() { e.conn.Close() })
 	closed := sx.L{}
@@ -842,13 +863,20 @@ func mainC13(rng *sx.Rng, out caser, thorough bool) {
 			if peer == 1 && nchan > 0 {
 				nq[0] = 0
 			}
-			runConnClose(out, nchan, cap, nq, peer, 0, 0, false)
+			runConnClose(out, nchan, cap, nq, peer, 0, 0, false, 0)
 		}
 	}
-	runConnClose(out, 3, cap, []int{0, 2, cap}, 0, 0, 0, true)
+	runConnClose(out, 3, cap, []int{0, 2, cap}, 0, 0, 0, true, 0)
+	// Conn.Close after the connection context (or its parent) was cancelled: still closes everything
+	for _, pc := range []int{1, 2} {
+		runConnClose(out, 0, cap, nil, 0, 0, 0, false, pc)
+		runConnClose(out, 1, cap, []int{0}, 0, 0, 0, false, pc)
+		runConnClose(out, 3, cap, []int{1, 0, 2}, 0, 0, 0, false, pc)
+		runConnClose(out, 3, cap, []int{0, 2, cap}, 0, 0, 0, true, pc)
+	}
 	for _, nfail := range []int{1, 3, 9} {
-		runConnClose(out, 0, cap, nil, 0, 2, nfail, false)
-		runConnClose(out, 2, cap, []int{0, 1}, 0, 2, nfail-1, true)
+		runConnClose(out, 0, cap, nil, 0, 2, nfail, false, 0)
+		runConnClose(out, 2, cap, []int{0, 1}, 0, 2, nfail-1, true, 0)
 	}
 	lap("conn-close")
 	// fn 1: cancelled before the call, every fill level 0..cap+3
@@ -864,7 +892,7 @@ func mainC13(rng *sx.Rng, out caser, thorough bool) {
 	for _, kind := range kinds {
 		for mode := 0; mode < 3; mode++ {
 			for nfed := 0; nfed <= cap; nfed++ {
-				for cb := 0; cb < 3; cb++ {
+				for cb := 0; cb < 5; cb++ {
 					runUntilCancelled(out, kind, cap, mode, nfed, false, cb)
 					if nfed > 0 {
 						runUntilCancelled(out, kind, cap, mode, nfed, true, cb)
@@ -957,7 +985,7 @@ func mainC13(rng *sx.Rng, out caser, thorough bool) {
 	parallel(out, 64, fs)
 	lap("close-fill")
 	// fn 7 with a transport that keeps failing: the reader parks on the full error queue (known finding)
-	runConnClose(out, 0, cap, nil, 0, 1, 0, false)
-	runConnClose(out, 2, cap, []int{0, 1}, 0, 1, 0, true)
-	runConnClose(out, 0, cap, nil, 0, 2, 10, false)
+	runConnClose(out, 0, cap, nil, 0, 1, 0, false, 0)
+	runConnClose(out, 2, cap, []int{0, 1}, 0, 1, 0, true, 0)
+	runConnClose(out, 0, cap, nil, 0, 2, 10, false, 0)
 }
